@@ -144,6 +144,24 @@ def deep_digest(lTokens, skip=("_vu",)):
     return out
 
 
+def _normcfg(v, depth=0):
+    """a configuration value by VALUE (never by identity): option objects and severity objects by class and attributes"""
+    if isinstance(v, (str, int, float, bool, type(None))):
+        return v
+    if depth > 4:
+        return "<deep>"
+    if isinstance(v, (list, tuple)):
+        return tuple(_normcfg(x, depth + 1) for x in v)
+    if isinstance(v, dict):
+        return tuple(sorted((str(k), _normcfg(x, depth + 1)) for k, x in v.items()))
+    if isinstance(v, (set, frozenset)):
+        return tuple(sorted(repr(_normcfg(x, depth + 1)) for x in v))
+    d = getattr(v, "__dict__", None)
+    if d is not None:
+        return (type(v).__name__, tuple(sorted((k, _normcfg(x, depth + 1)) for k, x in d.items() if not k.startswith("_"))))
+    return type(v).__name__
+
+
 def cfg_digest(lRules, skip=None):
     """the configurable attributes of every rule, by value (C06: the analysis of one rule must not change what another
     rule is configured to do - e.g. by sorting an option list that several rules share)"""
@@ -157,7 +175,7 @@ def cfg_digest(lRules, skip=None):
                 v = getattr(r, name)
             except Exception:
                 continue
-            vals.append((name, _norm(getattr(v, "value", v)) if not isinstance(v, (list, dict, str, int, float, bool, type(None), tuple)) else _norm(v)))
+            vals.append((name, _normcfg(v)))
         out.append((getattr(r, "unique_id", "?"), tuple(vals)))
     return out
 
